@@ -387,8 +387,10 @@ def comparators_rule(rep, prog, cfg, rule="C20.key-function"):
     rep.count("two_tag_predicates", n_fns)
 
 
-def fallback_verbatim(rep, rule, inst, body, adt_suffix, catch_all, param, prog=None):
-    """The catch-all variant is built from the input string through identity-like calls only."""
+def fallback_verbatim(rep, rule, inst, body, adt_suffix, catch_all, param, prog=None, matched=None):
+    """The catch-all variant is built from the input string through identity-like calls only.  `matched`: the operands
+    the name table compares — when the body obtains the string itself (`let raw = frame.find(..)?; match raw { .. }`), the
+    input is that value: the catch-all must come from the very call(s) the compared value comes from."""
     aggs = [(v, bb, i) for v, bb, i in tables.variant_aggs(body, body.reachable(), adt_suffix) if v == catch_all]
     if not aggs and prog is not None:
         # `known.unwrap_or_else(|| Enum::Other(raw.into()))`: the construction sits in a closure capturing the input
@@ -419,6 +421,11 @@ def fallback_verbatim(rep, rule, inst, body, adt_suffix, catch_all, param, prog=
     calls = [x for x in leaves if x[0] == "call" and identity_through(body.blocks[x[1]]["t"]) is None]
     consts = [x for x in leaves if x[0] == "const"]
     ok = ("param", param) in leaves and not calls and not consts
+    if not ok and matched and calls and not consts:
+        mls = [op_local(o) for o in matched]
+        mleaves, _ = fl.sources([l for l in mls if l is not None], through_call=identity_through, follow_mut=False)
+        mcalls = {x for x in mleaves if x[0] == "call" and identity_through(body.blocks[x[1]]["t"]) is None}
+        ok = bool(mcalls) and set(calls) == mcalls and not [x for x in mleaves if x[0] == "const"]
     rep.check(ok, rule, inst + "/fallback", body.loc(s["span"]),
               "the catch-all %s::%s is not built from the unchanged input (sources: %s)" % (adt_suffix, catch_all, sorted(map(str, leaves))),
               detail={"sources": sorted(map(str, leaves))})
@@ -686,7 +693,8 @@ def subsystem_rules(rep, prog, cfg):
     names = [table[v] for v in named if v in table]
     rep.check(len(set(names)) == len(names), rule, cfg + "/as_str names distinct", a.loc(a.span), "two variants share a name")
     param = 2 if pbody.kind == "Closure" else 1
-    fallback_verbatim(rep, rule, cfg + "/from_frame", pbody, "client::Subsystem", "Other", param)
+    fallback_verbatim(rep, rule, cfg + "/from_frame", pbody, "client::Subsystem", "Other", param,
+                      matched=[c["other"] for c in tables.str_compares(pbody)])
     rep.sample({"subsystem_as_str": table})
 
 
